@@ -458,6 +458,33 @@ theorem place_only_moves_forward (ops : List Op) (op : Op) (id : Nat) :
     (place (run State.init ops).1 id).rank ≤ (place (step (run State.init ops).1 op).1 id).rank :=
   place_rank_le (HInv_reach ops).wf (Mono_step (HInv_reach ops).wf op) id
 
+/-- Every operation moves every trigger id only along the life cycle, one legal step at a time: it
+stays where it is, or goes unborn → waiting (a create), waiting → queued (a detection), waiting →
+gone (a destruction) or queued → gone (an execution).  In particular an id never appears in the
+queue, and is never gone, without having been waiting first (no unborn → queued, no unborn →
+gone), and nothing moves backwards. -/
+theorem place_moves_only_along_the_life_cycle (ops : List Op) (op : Op) (id : Nat) :
+    place (step (run State.init ops).1 op).1 id = place (run State.init ops).1 id ∨
+    (place (run State.init ops).1 id = .unborn ∧ place (step (run State.init ops).1 op).1 id = .waiting) ∨
+    (place (run State.init ops).1 id = .waiting ∧ place (step (run State.init ops).1 op).1 id = .queued) ∨
+    (place (run State.init ops).1 id = .waiting ∧ place (step (run State.init ops).1 op).1 id = .gone) ∨
+    (place (run State.init ops).1 id = .queued ∧ place (step (run State.init ops).1 op).1 id = .gone) := by
+  have hr := place_only_moves_forward ops op id
+  cases hp : place (run State.init ops).1 id with
+  | unborn =>
+    rcases place_unborn_step (HInv_reach ops).wf op id hp with e | e
+    · exact Or.inl e
+    · exact Or.inr (Or.inl ⟨rfl, e⟩)
+  | waiting =>
+    rw [hp] at hr; revert hr
+    cases place (step (run State.init ops).1 op).1 id <;> simp [Place.rank]
+  | queued =>
+    rw [hp] at hr; revert hr
+    cases place (step (run State.init ops).1 op).1 id <;> simp [Place.rank]
+  | gone =>
+    rw [hp] at hr; revert hr
+    cases place (step (run State.init ops).1 op).1 id <;> simp [Place.rank]
+
 theorem place_rank_run : ∀ (ops : List Op) (s : State), WF s → ∀ id,
     (place s id).rank ≤ (place (run s ops).1 id).rank
   | [], s, _, id => by simp [run]
@@ -838,6 +865,29 @@ example : (run State.init (demo ++ [.beginBlock (fun id _ => if id = 2 then 7630
 
 example : let s := (run State.init (demo ++ [.beginBlock (fun id _ => if id = 2 then 7630 else 5000), .beginBlock (fun _ _ => 5000)])).1
     (s.bal "A", s.bal "B", s.bal "C") = (6, 0, 4) := by
+  decide
+
+/-- non-vacuity of the hypothesis `processTriggers … = some (s', xs)` of the BeginBlock theorems
+(`executed_within_creators_prepaid_gas`, `runs_exactly_the_triggers_that_fit`, `stops_only_at_a_cap`, …):
+after `demo` it holds with two executed triggers — exactly `fitCount`: the third one's 2 000 000 gas
+does not fit on top of 497 490 + 490 — created by operations 1 and 2 of the history with remaining
+gas 500 000 and 3 000. -/
+example : ∃ s' x xs, processTriggers (run State.init demo).1 (fun _ _ => 5000) = some (s', x :: xs) := by
+  obtain ⟨s', x, xs, h, _⟩ := head_always_fits demo (fun _ _ => 5000) (by decide)
+  exact ⟨s', x, xs, h⟩
+example : fitCount (run State.init demo).1 (qIds (run State.init demo).1) MaximumActions 0 = 2 ∧
+    (qIds (run State.init demo).1)[2]? = some 3 ∧ (run State.init demo).1.gasLimits 3 = some 2000000 ∧
+    demo[1]? = some (.create ⟨["A"], .height 11, [.send "A" "B" 3, .send "A" "B" 100]⟩ 500000 10 1000) ∧
+    (run State.init demo).2[1]? = some (.created 1 497490) ∧ 497490 = gasLimitFor 500000 :=
+  ⟨by decide, by decide, by decide, rfl, by decide, by decide⟩
+
+/-- a trigger id visits the places in order: 4 is unborn, waiting after its create, gone after its
+owner's destroy; 1 goes from waiting to queued at the EndBlock and is gone after the BeginBlock -/
+example : place (run State.init demo).1 4 = .unborn ∧
+    place (run State.init (demo ++ [.create ⟨["A"], .height 20, [.boom]⟩ 5000 12 1010])).1 4 = .waiting ∧
+    place (run State.init (demo ++ [.create ⟨["A"], .height 20, [.boom]⟩ 5000 12 1010, .destroy "A" 4])).1 4 = .gone ∧
+    place (run State.init (demo.take 4)).1 1 = .waiting ∧ place (run State.init demo).1 1 = .queued ∧
+    place (run State.init (demo ++ [.beginBlock (fun _ _ => 5000)])).1 1 = .gone := by
   decide
 
 /-- times are full timestamps (nanoseconds): a trigger for T+0.9 s created in the block at T+0.2 s
